@@ -652,6 +652,636 @@ theorem lp_fragment_rejected (g : Guards) (hg : g.lpType = T.tLpPacket) (int : B
 example : parseLp T (tlv 100 (wireOf ([(81, [0, 0, 0, 0, 0, 0, 0, 1])] ++ (82, [0]) :: [(83, [2]), (80, [6, 3, 7])])))
     = .error .decodeError := by rfl
 
+/-! ## every layout the in-order scan recognises
+
+  `TlvModel.parse` recognises a header only at or after the position (`field_pos`) its in-order scan of the
+  format has reached (`scanPos`).  The theorems below replace the special layouts of `lp_nack`,
+  `lp_fragment_rejected` and the token clause of `lp_transparent` by: every layout in which the scan still
+  recognises the header - in particular every envelope whose headers are written in increasing type-number
+  order, which is what NDNLPv2 prescribes and forwarders emit. -/
+
+/-- header type numbers never decrease (NDNLPv2: header fields in increasing TLV-TYPE order, the Fragment
+    last; a repeatable header may repeat) -/
+def Ascending (hdrs : List (Nat × Bytes)) : Prop := List.Pairwise (· ≤ ·) (hdrs.map (·.1))
+
+/-- the fields the format declares after the Nack field -/
+def afterNackFields : List (Nat × Kind) := (T.fields.dropWhile fun f => f.1 != T.tNack).tail
+
+/-- `t` is the type number of a field the format declares after Nack -/
+def AfterNack (t : Nat) : Prop := ∃ f ∈ afterNackFields, f.1 = t
+
+/-- the type is not a field of the format -/
+def Unknown (t : Nat) : Prop := ∀ k, (t, k) ∉ T.fields
+
+/-- Well-formed value of a Nack header and the reason it carries: an optional NackReason (a
+    NonNegativeInteger of 1/2/4/8 bytes) among any number of unknown non-critical (even-typed) sub-elements. -/
+def NackVal (nv : Bytes) (ro : Option Nat) : Prop :=
+  ∃ u1 u2 : List (Nat × Bytes),
+    (∀ e ∈ u1 ++ u2, e.1 % 2 = 0 ∧ e.1 < 2^64 ∧ e.2.length < 2^64) ∧
+    ((ro = none ∧ nv = wireOf (u1 ++ u2)) ∨
+     ∃ rv : Bytes, (rv.length = 1 ∨ rv.length = 2 ∨ rv.length = 4 ∨ rv.length = 8) ∧
+       ro = some (beVal rv) ∧ nv = wireOf (u1 ++ (T.tNackReason, rv) :: u2))
+
+/-! ### table facts -/
+
+private theorem afterNack_eq : afterNackFields = T.fields.drop 4 := by decide
+
+private theorem nack_found : ∀ pos, pos ≤ 3 →
+    findFrom T.fields pos T.tNack = some (3, .model [(T.tNackReason, .uint)] false) := by decide
+
+private theorem nack_idx : T.fields[3]? = some (T.tNack, .model [(T.tNackReason, .uint)] false) := by decide
+
+private theorem nack_not_after : ∀ f ∈ T.fields.drop 4, f.1 ≠ T.tNack := by decide
+
+/-- from a position up to the Nack field, a field declared after Nack is found at its later place -/
+private theorem after_found : ∀ pos, pos ≤ 3 → ∀ f ∈ T.fields.drop 4,
+    (match findFrom T.fields pos f.1 with | some (i, _) => decide (4 ≤ i) | none => false) = true := by decide
+
+/-- in increasing type order only the Fragment itself could precede a field declared after Nack -/
+private theorem after_above : ∀ f ∈ T.fields.drop 4, f.1 = T.tFragment ∨ T.tNack < f.1 := by decide
+
+private theorem low_fields : ∀ f ∈ T.fields, f.1 ≤ T.tFragCount →
+    f.1 = T.tFragment ∨ f.1 = T.tFragIndex ∨ f.1 = T.tFragCount := by decide
+
+private theorem low_fields_token : ∀ f ∈ T.fields, f.1 ≤ T.tPitToken →
+    f.1 = T.tFragment ∨ f.1 = T.tFragIndex ∨ f.1 = T.tFragCount ∨ f.1 = T.tPitToken := by decide
+
+private theorem frag_index_le : T.tFragIndex ≤ T.tFragCount := by decide
+
+/-! ### the scan over optional headers -/
+
+/-- optional headers in front of anything: they are collected or skipped, never rejected, and the scan goes on
+    behind them at `scanPos` -/
+private theorem collect_prefix (hdrs : List (Nat × Bytes)) (hok : ∀ h ∈ hdrs, HdrOk h) (rest : List (Nat × Bytes)) :
+    ∀ pos acc, pos ≤ T.fields.length - 1 →
+      ∃ ext, collect T.fields (parseVal T.lengthCheck) true (hdrs ++ rest) pos acc
+          = collect T.fields (parseVal T.lengthCheck) true rest (scanPos T.fields (hdrs.map (·.1)) pos) (acc ++ ext) ∧
+        scanPos T.fields (hdrs.map (·.1)) pos ≤ T.fields.length - 1 ∧
+        (∀ e ∈ ext, Plain e.1) := by
+  induction hdrs with
+  | nil =>
+    intro pos acc hp
+    exact ⟨[], by simp [scanPos], by simpa [scanPos] using hp, by simp⟩
+  | cons h hs ih =>
+    intro pos acc hp
+    obtain ⟨t, v⟩ := h
+    have hh := hok (t, v) (by simp)
+    have ih' := ih (fun h hm => hok h (List.mem_cons_of_mem _ hm))
+    simp only [List.cons_append, collect, List.map_cons, scanPos]
+    cases hf : findFrom T.fields pos t with
+    | none =>
+      simp only [Bool.not_true, Bool.and_false, Bool.false_eq_true, if_false]
+      exact ih' pos acc hp
+    | some ik =>
+      obtain ⟨i, k⟩ := ik
+      obtain ⟨hpi, hget⟩ := findFrom_spec _ _ _ _ _ hf
+      have hmem : (t, k) ∈ T.fields := List.mem_of_getElem? hget
+      obtain ⟨x, hx, _⟩ := wf_parse k v (hh.2.2.2.2 k hmem)
+      have hilt : i < T.fields.length := by
+        rcases Nat.lt_or_ge i T.fields.length with h | h
+        · exact h
+        · rw [List.getElem?_eq_none h] at hget; simp at hget
+      have hine : i ≠ T.fields.length - 1 := by
+        intro e
+        rw [e, frag_at_last] at hget
+        simp only [Option.some.injEq, Prod.mk.injEq] at hget
+        exact hh.1 hget.1.symm
+      simp only [hx]
+      obtain ⟨ext, h1, h2, h3⟩ := ih' (i + 1) (acc ++ [(t, x)]) (by omega)
+      refine ⟨(t, x) :: ext, by simp [h1], h2, ?_⟩
+      intro e he
+      simp only [List.mem_cons] at he
+      rcases he with rfl | he
+      · exact ⟨hh.1, hh.2.1, hh.2.2.1, hh.2.2.2.1⟩
+      · exact h3 e he
+
+/-- no header of a field declared after Nack: the scan is still at or before the Nack field -/
+private theorem scan_before_nack (hdrs : List (Nat × Bytes)) (hok : ∀ h ∈ hdrs, HdrOk h)
+    (hno : ∀ h ∈ hdrs, ¬ AfterNack h.1) : ∀ pos, pos ≤ 3 → scanPos T.fields (hdrs.map (·.1)) pos ≤ 3 := by
+  induction hdrs with
+  | nil => intro pos hp; simpa [scanPos] using hp
+  | cons h hs ih =>
+    intro pos hp
+    obtain ⟨t, v⟩ := h
+    have ih' := ih (fun h hm => hok h (List.mem_cons_of_mem _ hm)) (fun h hm => hno h (List.mem_cons_of_mem _ hm))
+    simp only [List.map_cons, scanPos]
+    cases hf : findFrom T.fields pos t with
+    | none => exact ih' pos hp
+    | some ik =>
+      obtain ⟨i, k⟩ := ik
+      obtain ⟨_, hget⟩ := findFrom_spec _ _ _ _ _ hf
+      simp only
+      apply ih'
+      have h3 : i ≠ 3 := by
+        intro e
+        rw [e, nack_idx] at hget
+        simp only [Option.some.injEq, Prod.mk.injEq] at hget
+        exact (hok (t, v) (by simp)).2.2.2.1 hget.1.symm
+      have h4 : ¬ 4 ≤ i := by
+        intro h
+        apply hno (t, v) (by simp)
+        refine ⟨(t, k), ?_, rfl⟩
+        rw [afterNack_eq]
+        exact mem_drop_of_getElem? _ _ _ _ hget h
+      omega
+
+/-- a header of a field declared after Nack moves the scan beyond the Nack field -/
+private theorem scan_past_nack (hdrs : List (Nat × Bytes)) (hex : ∃ h ∈ hdrs, AfterNack h.1) :
+    ∀ pos, 4 ≤ scanPos T.fields (hdrs.map (·.1)) pos := by
+  induction hdrs with
+  | nil => obtain ⟨h, hm, _⟩ := hex; simp at hm
+  | cons h hs ih =>
+    intro pos
+    obtain ⟨t, v⟩ := h
+    simp only [List.map_cons, scanPos]
+    by_cases hl : AfterNack t
+    · rcases Nat.lt_or_ge pos 4 with hp | hp
+      · obtain ⟨f, hf, hft⟩ := hl
+        rw [afterNack_eq] at hf
+        have := after_found pos (by omega) f hf
+        rw [hft] at this
+        cases hfd : findFrom T.fields pos t with
+        | none => rw [hfd] at this; simp at this
+        | some ik =>
+          obtain ⟨i, k⟩ := ik
+          rw [hfd] at this
+          simp only [decide_eq_true_eq] at this
+          have := scanPos_ge T.fields (hs.map (·.1)) (i + 1)
+          simp only
+          omega
+      · cases hfd : findFrom T.fields pos t with
+        | none =>
+          have := scanPos_ge T.fields (hs.map (·.1)) pos
+          simp only; omega
+        | some ik =>
+          obtain ⟨i, k⟩ := ik
+          have := (findFrom_spec _ _ _ _ _ hfd).1
+          have := scanPos_ge T.fields (hs.map (·.1)) (i + 1)
+          simp only; omega
+    · have hex' : ∃ h ∈ hs, AfterNack h.1 := by
+        obtain ⟨h, hm, ha⟩ := hex
+        simp only [List.mem_cons] at hm
+        rcases hm with rfl | hm
+        · exact absurd ha hl
+        · exact ⟨h, hm, ha⟩
+      cases findFrom T.fields pos t with
+      | none => exact ih hex' pos
+      | some ik => exact ih hex' _
+
+/-- **nack_recognised_iff.** The exact condition under which the decoder's in-order scan recognises a Nack
+    header that follows the optional headers `before`: the scan position reached behind them is still at or before
+    the Nack field - which is the case iff none of them is a header of a field the format declares after Nack. -/
+theorem nack_recognised_iff (before : List (Nat × Bytes)) (hok : ∀ h ∈ before, HdrOk h) :
+    (findFrom T.fields (scanPos T.fields (before.map (·.1)) 0) T.tNack).isSome = true ↔
+      ∀ h ∈ before, ¬ AfterNack h.1 := by
+  constructor
+  · intro h b hb ha
+    have h4 := scan_past_nack before ⟨b, hb, ha⟩ 0
+    rw [findFrom_none_of_drop T.fields 4 _ _ nack_not_after h4] at h
+    simp at h
+  · intro h
+    rw [nack_found _ (scan_before_nack before hok h 0 (by omega))]
+    rfl
+
+/-! ### Nack header anywhere the scan recognises it -/
+
+/-- the decoded NetworkNack model: its NackReason field, if set -/
+def nackFields : Option Nat → List (Nat × FVal)
+  | some r => [(T.tNackReason, .uint r)]
+  | none => []
+
+private theorem parseFlat_nackVal (nv : Bytes) (ro : Option Nat) (h : NackVal nv ro) :
+    parseFlat [(T.tNackReason, FKind.uint)] false T.lengthCheck nv
+      = .ok (nackFields ro) := by
+  obtain ⟨u1, u2, hu, hcase⟩ := h
+  have hskip : ∀ u : List (Nat × Bytes), (∀ e ∈ u, e.1 % 2 = 0 ∧ e.1 < 2^64 ∧ e.2.length < 2^64) →
+      ∀ h ∈ u, (∀ k, (h.1, k) ∉ [(T.tNackReason, FKind.uint)]) ∧ (h.1 % 2 = 0 ∨ false = true) := by
+    intro u hu' e he
+    have h0 := (hu' e he).1
+    refine ⟨?_, Or.inl h0⟩
+    intro k hk
+    simp only [List.mem_singleton, Prod.mk.injEq] at hk
+    have : T.tNackReason % 2 = 1 := by decide
+    rw [← hk.1] at this
+    omega
+  have hu1 : ∀ e ∈ u1, e.1 % 2 = 0 ∧ e.1 < 2^64 ∧ e.2.length < 2^64 := fun e he => hu e (List.mem_append_left _ he)
+  have hu2 : ∀ e ∈ u2, e.1 % 2 = 0 ∧ e.1 < 2^64 ∧ e.2.length < 2^64 := fun e he => hu e (List.mem_append_right _ he)
+  rcases hcase with ⟨rfl, rfl⟩ | ⟨rv, hlen, rfl, rfl⟩
+  · rw [parseFlat_elems _ _ _ _ (fun e he => (hu e he).2)]
+    have := collect_skip_unknown [(T.tNackReason, FKind.uint)] parseFVal false (u1 ++ u2) (hskip _ hu) [] 0 []
+    rw [List.append_nil] at this
+    rw [this]
+    rfl
+  · have hsz : ∀ e ∈ u1 ++ (T.tNackReason, rv) :: u2, e.1 < 2^64 ∧ e.2.length < 2^64 := by
+      intro e he
+      simp only [List.mem_append, List.mem_cons] at he
+      rcases he with he | rfl | he
+      · exact (hu1 e he).2
+      · refine ⟨by dsimp only; decide, ?_⟩
+        dsimp only
+        rcases hlen with h | h | h | h <;> omega
+      · exact (hu2 e he).2
+    rw [parseFlat_elems _ _ _ _ hsz]
+    rw [collect_skip_unknown _ _ _ u1 (hskip _ hu1)]
+    have hf : findFrom [(T.tNackReason, FKind.uint)] 0 T.tNackReason = some (0, .uint) := by decide
+    simp only [collect, hf, parseFVal, hlen, if_true, List.take_length, Nat.lt_irrefl, if_false, List.nil_append]
+    have := collect_skip_unknown [(T.tNackReason, FKind.uint)] parseFVal false u2 (hskip _ hu2) [] (0 + 1)
+      [(T.tNackReason, FVal.uint (beVal rv))]
+    rw [List.append_nil] at this
+    rw [this]
+    rfl
+
+private theorem lookup_skip {ν} (ext r : List (Nat × ν)) (t : Nat) (h : ∀ e ∈ ext, e.1 ≠ t) :
+    lookup (ext ++ r) t = lookup r t :=
+  lookup_append_none _ _ _ (lookup_none_of_not_mem _ _ h)
+
+/-- what the envelope decoder returns for an envelope with a Nack header among optional headers, none of the
+    preceding ones being a header of a field declared after Nack -/
+theorem parseLp_nack_general (before after : List (Nat × Bytes)) (nv : Bytes) (ro : Option Nat) (p : Bytes)
+    (hs : Sized (before ++ (T.tNack, nv) :: after) p)
+    (hb : ∀ h ∈ before, HdrOk h) (ha : ∀ h ∈ after, HdrOk h)
+    (hord : ∀ h ∈ before, ¬ AfterNack h.1) (hnv : NackVal nv ro) :
+    ∃ tok, parseLp T (lpWrap (before ++ (T.tNack, nv) :: after) p)
+      = .ok { nack := some ro, pitToken := tok, fragment := some p } := by
+  have hsz : ∀ e ∈ (before ++ (T.tNack, nv) :: after) ++ [(T.tFragment, p)], e.1 < 2^64 ∧ e.2.length < 2^64 := by
+    intro e he
+    simp only [List.mem_append, List.mem_singleton] at he
+    rcases he with he | rfl
+    · exact hs.1 e (by simpa using he)
+    · exact ⟨consts_distinct.2.2.2.2.2.2.1, hs.2.1⟩
+  have hinner := parseFlat_nackVal nv ro hnv
+  obtain ⟨ext1, hc1, _, hp1⟩ := collect_prefix before hb ((T.tNack, nv) :: (after ++ [(T.tFragment, p)])) 0 []
+    (Nat.zero_le _)
+  have hpos := scan_before_nack before hb hord 0 (by omega)
+  obtain ⟨ext2, hc2, hp2, _⟩ := collect_headers p after ha 4
+    (([] : List (Nat × Val)) ++ ext1 ++ [(T.tNack, Val.model (nackFields ro))])
+    (by decide)
+  have hc : collect T.fields (parseVal T.lengthCheck) true ((before ++ (T.tNack, nv) :: after) ++ [(T.tFragment, p)]) 0 []
+      = .ok (ext1 ++ [(T.tNack, Val.model (nackFields ro))]
+          ++ ext2 ++ [(T.tFragment, .flat (.bytes p))]) := by
+    rw [List.append_assoc, List.cons_append, hc1]
+    simp only [collect, nack_found _ hpos, parseVal, List.take_length, hinner, Except.map]
+    rw [hc2]
+    simp
+  have e1 : ∀ e ∈ ext1, Plain e.1 := hp1
+  refine ⟨bytesOf (lookup (ext1 ++ [(T.tNack, Val.model (nackFields ro))]
+          ++ ext2 ++ [(T.tFragment, .flat (.bytes p))]) T.tPitToken), ?_⟩
+  unfold parseLp lpWrap
+  rw [parseAndCheckTl_tlv _ _ consts_distinct.2.2.2.2.2.1 hs.2.2]
+  simp only [bind, Except.bind]
+  rw [parseValue_elems T _ hsz, hc]
+  have hnone : ∀ t, (t = T.tFragIndex ∨ t = T.tFragCount) →
+      lookup (ext1 ++ [(T.tNack, Val.model (nackFields ro))] ++ ext2 ++ [(T.tFragment, Val.flat (.bytes p))]) t = none := by
+    intro t ht
+    apply lookup_none_of_not_mem
+    intro e he
+    simp only [List.mem_append, List.mem_singleton] at he
+    rcases he with ((he | rfl) | he) | rfl
+    · rcases ht with rfl | rfl
+      · exact (e1 e he).2.1
+      · exact (e1 e he).2.2.1
+    · rcases ht with rfl | rfl <;> (dsimp only; decide)
+    · rcases ht with rfl | rfl
+      · exact (hp2 e he).2.1
+      · exact (hp2 e he).2.2.1
+    · rcases ht with rfl | rfl <;> (dsimp only; decide)
+  have hnack : lookup (ext1 ++ [(T.tNack, Val.model (nackFields ro))] ++ ext2 ++ [(T.tFragment, Val.flat (.bytes p))]) T.tNack
+      = some (Val.model (nackFields ro)) := by
+    simp only [List.append_assoc]
+    rw [lookup_skip _ _ _ (fun e he => (e1 e he).2.2.2)]
+    simp [lookup]
+  have hfrag : lookup (ext1 ++ [(T.tNack, Val.model (nackFields ro))] ++ ext2 ++ [(T.tFragment, Val.flat (.bytes p))]) T.tFragment
+      = some (.flat (.bytes p)) := by
+    simp only [List.append_assoc]
+    rw [lookup_skip _ _ _ (fun e he => (e1 e he).1)]
+    have : T.tNack ≠ T.tFragment := by decide
+    simp only [List.cons_append, List.nil_append, lookup, this, if_false]
+    rw [lookup_skip _ _ _ (fun e he => (hp2 e he).1)]
+    simp [lookup]
+  simp only [hnone _ (Or.inl rfl), hnone _ (Or.inr rfl), hnack, hfrag, Option.isSome_none, Bool.or_self,
+    Bool.false_eq_true, if_false, pure, Except.pure, nackOf, bytesOf]
+  cases ro <;> simp [nackFields, lookup]
+
+/-- **lp_nack_general.** For every envelope `LpPacket{ before…, Nack{…}, after…, Fragment = i }` in which
+    `before` / `after` are optional headers (known ones with a legal value, unknown ones with any value, in any
+    number - a PitToken included: a Nack with a token is still a Nack) and no header of a field the format
+    declares after Nack precedes the Nack header (`nack_recognised_iff`: exactly when the scan recognises it),
+    and every well-formed Nack value (optional NackReason of any width, unknown non-critical sub-elements
+    before and after it): receiving the envelope completes exactly the pending Interests named by the enclosed
+    Interest, each with `InterestNack(reason)` - reason 0 when the header carries no NackReason - removes
+    exactly those entries and touches nothing else. -/
+theorem lp_nack_general (g : Guards) (hg : g.lpType = T.tLpPacket) (hdg : g.nackByDigest = true)
+    (hk : PyErr.keyError ∈ g.caughtNackLookup)
+    (int : Bytes → Except PyErr IntFacts) (data : Bytes → Except PyErr DataFacts)
+    (st : State) (t : Nat) (v : Bytes) (ht : t < 2^64)
+    (before after : List (Nat × Bytes)) (nv : Bytes) (ro : Option Nat)
+    (hs : Sized (before ++ (T.tNack, nv) :: after) (tlv t v))
+    (hb : ∀ h ∈ before, HdrOk h) (ha : ∀ h ∈ after, HdrOk h)
+    (hord : ∀ h ∈ before, ¬ AfterNack h.1) (hnv : NackVal nv ro)
+    (facts : IntFacts) (hint : int (tlv t v) = .ok facts) :
+    receive g (decoders T int data) st T.tLpPacket (lpWrap (before ++ (T.tNack, nv) :: after) (tlv t v)) =
+      .ok (afterNack st facts.name, (named st facts.name).map fun p => Effect.nacked p.id (ro.getD 0)) := by
+  have htl : parseTlNum (tlv t v) 0 = .ok (t, tlNumSize t) := by
+    unfold tlv; rw [List.append_assoc]; exact parse_write t _ ht
+  obtain ⟨tok, hp⟩ := parseLp_nack_general before after nv ro (tlv t v) hs hb ha hord hnv
+  rw [← hg, receive_lp_ok g int data st _ _ _ t _ hp rfl htl]
+  simp only [receiveNet, nackReasonOf, Option.map, guarded, decoders, hint, onNack, nackNode, nackSplit, hdg,
+    if_true, hk, named, afterNack]
+  cases PyDict.get? st.pit (splitDigest facts.name).1 <;> rfl
+
+/-- **lp_nack_ascending.** Every envelope whose headers are in increasing type-number order, with one Nack
+    header among optional headers, is handled as a Nack per `lp_nack_general`: in increasing order nothing
+    the format declares after Nack can precede it. -/
+theorem lp_nack_ascending (g : Guards) (hg : g.lpType = T.tLpPacket) (hdg : g.nackByDigest = true)
+    (hk : PyErr.keyError ∈ g.caughtNackLookup)
+    (int : Bytes → Except PyErr IntFacts) (data : Bytes → Except PyErr DataFacts)
+    (st : State) (t : Nat) (v : Bytes) (ht : t < 2^64)
+    (before after : List (Nat × Bytes)) (nv : Bytes) (ro : Option Nat)
+    (hs : Sized (before ++ (T.tNack, nv) :: after) (tlv t v))
+    (hb : ∀ h ∈ before, HdrOk h) (ha : ∀ h ∈ after, HdrOk h)
+    (hasc : Ascending (before ++ (T.tNack, nv) :: after)) (hnv : NackVal nv ro)
+    (facts : IntFacts) (hint : int (tlv t v) = .ok facts) :
+    receive g (decoders T int data) st T.tLpPacket (lpWrap (before ++ (T.tNack, nv) :: after) (tlv t v)) =
+      .ok (afterNack st facts.name, (named st facts.name).map fun p => Effect.nacked p.id (ro.getD 0)) := by
+  apply lp_nack_general g hg hdg hk int data st t v ht before after nv ro hs hb ha _ hnv facts hint
+  intro h hm ⟨f, hf, hft⟩
+  rw [afterNack_eq] at hf
+  have hle : h.1 ≤ T.tNack := by
+    unfold Ascending at hasc
+    rw [List.map_append, List.pairwise_append] at hasc
+    exact hasc.2.2 h.1 (List.mem_map_of_mem hm) T.tNack (by simp)
+  have hok := hb h hm
+  rcases after_above f hf with h1 | h1
+  · exact hok.1 (hft ▸ h1)
+  · omega
+
+/-- the envelope decoder on a Nack header that follows a header of a field declared after Nack: the in-order
+    scan does not recognise it, the result is that of the envelope without the Nack header (whatever its value) -/
+theorem parseLp_nack_out_of_order (before after : List (Nat × Bytes)) (nv p : Bytes)
+    (hs : Sized (before ++ (T.tNack, nv) :: after) p) (hex : ∃ h ∈ before, AfterNack h.1) :
+    Sized (before ++ after) p ∧
+    parseLp T (lpWrap (before ++ (T.tNack, nv) :: after) p) = parseLp T (lpWrap (before ++ after) p) := by
+  have hs' : Sized (before ++ after) p := by
+    refine ⟨fun h hm => hs.1 h ?_, hs.2.1, ?_⟩
+    · simp only [List.mem_append, List.mem_cons] at hm ⊢
+      rcases hm with hm | hm
+      · exact Or.inl hm
+      · exact Or.inr (Or.inr hm)
+    · have := hs.2.2
+      simp only [wireOf_length_append, wireOf_cons, List.length_append] at this ⊢
+      omega
+  have hsz : ∀ (hd : List (Nat × Bytes)), Sized hd p → ∀ e ∈ hd ++ [(T.tFragment, p)], e.1 < 2^64 ∧ e.2.length < 2^64 := by
+    intro hd hsd e he
+    simp only [List.mem_append, List.mem_singleton] at he
+    rcases he with he | rfl
+    · exact hsd.1 e he
+    · exact ⟨consts_distinct.2.2.2.2.2.2.1, hsd.2.1⟩
+  refine ⟨hs', ?_⟩
+  unfold parseLp lpWrap
+  rw [parseAndCheckTl_tlv _ _ consts_distinct.2.2.2.2.2.1 hs.2.2,
+    parseAndCheckTl_tlv _ _ consts_distinct.2.2.2.2.2.1 hs'.2.2]
+  simp only [bind, Except.bind]
+  rw [parseValue_elems T _ (hsz _ hs), parseValue_elems T _ (hsz _ hs')]
+  have h4 := scan_past_nack before hex 0
+  have := collect_drop_unrecognised T.fields (parseVal T.lengthCheck) T.tNack nv (after ++ [(T.tFragment, p)]) before 0 []
+    (findFrom_none_of_drop T.fields 4 _ _ nack_not_after h4)
+  rw [List.append_assoc, List.cons_append, this, List.append_assoc]
+
+/-- **lp_nack_out_of_order.** The negative side, as the code behaves: when a header of a field the format
+    declares after Nack precedes the Nack header (`nack_recognised_iff`: exactly when the in-order scan does
+    not recognise it), the envelope is processed as a plain envelope around the enclosed packet - as the bare
+    packet, i.e. an enclosed Interest goes to the incoming-Interest path and no pending Interest is nacked -
+    whatever the Nack header's value is.  Such an envelope violates the NDNLPv2 field order
+    (`lp_nack_ascending`: in increasing type order this cannot happen). -/
+theorem lp_nack_out_of_order (g : Guards) (hg : g.lpType = T.tLpPacket)
+    (int : Bytes → Except PyErr IntFacts) (data : Bytes → Except PyErr DataFacts)
+    (st : State) (before after : List (Nat × Bytes)) (nv : Bytes) (t : Nat) (v : Bytes)
+    (ht : t < 2^64) (hv : v.length < 2^64)
+    (hs : Sized (before ++ (T.tNack, nv) :: after) (tlv t v))
+    (hb : ∀ h ∈ before, HdrOk h) (ha : ∀ h ∈ after, HdrOk h) (hne : t ≠ g.lpType)
+    (hex : ∃ h ∈ before, AfterNack h.1) :
+    ∃ tok,
+      receive g (decoders T int data) st T.tLpPacket (lpWrap (before ++ (T.tNack, nv) :: after) (tlv t v))
+        = receiveNet g (decoders T int data) st none tok t (tlv t v) ∧
+      eraseRes (receive g (decoders T int data) st T.tLpPacket (lpWrap (before ++ (T.tNack, nv) :: after) (tlv t v)))
+        = eraseRes (receive g (decoders T int data) st t (tlv t v)) := by
+  obtain ⟨hs', hparse⟩ := parseLp_nack_out_of_order before after nv (tlv t v) hs hex
+  have hok : ∀ h ∈ before ++ after, HdrOk h := by
+    intro h hm
+    rcases List.mem_append.1 hm with hm | hm
+    · exact hb h hm
+    · exact ha h hm
+  obtain ⟨tok, h1, _, h3, _⟩ := lp_transparent g hg int data st (before ++ after) t v ht hv hs' hok hne
+  have heq : receive g (decoders T int data) st T.tLpPacket (lpWrap (before ++ (T.tNack, nv) :: after) (tlv t v))
+      = receive g (decoders T int data) st T.tLpPacket (lpWrap (before ++ after) (tlv t v)) := by
+    rw [← hg]
+    simp only [receive, if_true, decoders, hparse]
+  exact ⟨tok, by rw [heq, h1], by rw [heq, h3]⟩
+
+/-- non-vacuity of `lp_nack_general` / `lp_nack_ascending`: Sequence, PitToken, an unknown header, then a Nack whose
+    value has unknown sub-elements around a 2-byte NackReason, then IncomingFaceId, Ack, TxSequence (increasing
+    type order although the format declares TxSequence before Ack) -/
+example : NackVal (wireOf [(802, [1]), (801, [0, 150]), (804, [])]) (some 150) ∧
+    Ascending ([(81, [0, 0, 0, 0, 0, 0, 0, 1]), (98, [170]), (300, [1])] ++
+      (T.tNack, wireOf [(802, [1]), (801, [0, 150]), (804, [])]) :: [(812, [7]), (836, [1]), (840, [2])]) ∧
+    (∀ h ∈ [(81, [0, 0, 0, 0, 0, 0, 0, 1]), ((98 : Nat), ([170] : Bytes)), (300, [1])], ¬ AfterNack h.1) ∧
+    parseLp T (lpWrap ([(81, [0, 0, 0, 0, 0, 0, 0, 1]), (98, [170]), (300, [1])] ++
+      (T.tNack, wireOf [(802, [1]), (801, [0, 150]), (804, [])]) :: [(812, [7]), (836, [1]), (840, [2])]) [5, 0])
+      = .ok { nack := some (some 150), pitToken := some [170], fragment := some [5, 0] } := by
+  refine ⟨⟨[(802, [1])], [(804, [])], by decide, Or.inr ⟨[0, 150], by decide, by decide, rfl⟩⟩, by unfold Ascending; decide,
+    ?_, by rfl⟩
+  intro h hm ⟨f, hf, hft⟩
+  rw [afterNack_eq] at hf
+  simp only [List.mem_cons, List.not_mem_nil, or_false] at hm
+  rcases hm with rfl | rfl | rfl <;> revert f <;> decide
+
+/-- the out-of-order layout of `lp_nack_out_of_order`: IncomingFaceId before the Nack header - decoded as no Nack -/
+example : AfterNack 812 ∧ parseLp T (lpWrap ([(812, [7])] ++ (T.tNack, wireOf [(801, [50])]) :: []) [5, 0])
+    = .ok { nack := none, pitToken := none, fragment := some [5, 0] } :=
+  ⟨⟨(812, .flat .uint), by decide, rfl⟩, by rfl⟩
+
+/-! ### fragmentation headers anywhere in an increasing-order envelope -/
+
+private theorem split_first_frag (hdrs : List (Nat × Bytes))
+    (hex : ∃ h ∈ hdrs, h.1 = T.tFragIndex ∨ h.1 = T.tFragCount) :
+    ∃ pre ft fv post, hdrs = pre ++ (ft, fv) :: post ∧ (ft = T.tFragIndex ∨ ft = T.tFragCount) ∧
+      ∀ h ∈ pre, h.1 ≠ T.tFragIndex ∧ h.1 ≠ T.tFragCount := by
+  induction hdrs with
+  | nil => obtain ⟨h, hm, _⟩ := hex; simp at hm
+  | cons h hs ih =>
+    by_cases hh : h.1 = T.tFragIndex ∨ h.1 = T.tFragCount
+    · exact ⟨[], h.1, h.2, hs, rfl, hh, by simp⟩
+    · have hex' : ∃ h ∈ hs, h.1 = T.tFragIndex ∨ h.1 = T.tFragCount := by
+        obtain ⟨x, hm, hx⟩ := hex
+        simp only [List.mem_cons] at hm
+        rcases hm with rfl | hm
+        · exact absurd hx hh
+        · exact ⟨x, hm, hx⟩
+      obtain ⟨pre, ft, fv, post, he, hft, hpre⟩ := ih hex'
+      refine ⟨h :: pre, ft, fv, post, by simp [he], hft, ?_⟩
+      intro x hx
+      simp only [List.mem_cons] at hx
+      rcases hx with rfl | hx
+      · exact ⟨fun e => hh (Or.inl e), fun e => hh (Or.inr e)⟩
+      · exact hpre x hx
+
+/-- the envelope decoder never accepts an envelope with headers in increasing type-number order one of which is
+    FragIndex or FragCount, whatever the other headers are and whatever follows the headers -/
+theorem parseLp_fragmented_general (hdrs rest : List (Nat × Bytes))
+    (hasc : Ascending hdrs) (hnf : ∀ h ∈ hdrs, h.1 ≠ T.tFragment)
+    (hex : ∃ h ∈ hdrs, h.1 = T.tFragIndex ∨ h.1 = T.tFragCount)
+    (hsz : ∀ e ∈ hdrs ++ rest, e.1 < 2^64 ∧ e.2.length < 2^64)
+    (hlen : (wireOf (hdrs ++ rest)).length < 2^64) :
+    ∃ e, parseLp T (tlv T.tLpPacket (wireOf (hdrs ++ rest))) = .error e := by
+  obtain ⟨pre, ft, fv, post, he, hft, hpre⟩ := split_first_frag hdrs hex
+  subst he
+  have hunk : ∀ h ∈ pre, ∀ k, (h.1, k) ∉ T.fields := by
+    intro h hm k hk
+    have hle : h.1 ≤ T.tFragCount := by
+      unfold Ascending at hasc
+      rw [List.map_append, List.pairwise_append] at hasc
+      have := hasc.2.2 h.1 (List.mem_map_of_mem hm) ft (by simp)
+      rcases hft with rfl | rfl
+      · exact Nat.le_trans this frag_index_le
+      · exact this
+    rcases low_fields (h.1, k) hk hle with h1 | h1 | h1
+    · exact hnf h (by simp [hm]) h1
+    · exact (hpre h hm).1 h1
+    · exact (hpre h hm).2 h1
+  have e1 : (pre ++ (ft, fv) :: post) ++ rest = pre ++ (ft, fv) :: (post ++ rest) := by simp
+  rw [e1] at hsz hlen ⊢
+  exact parseLp_fragmented pre (post ++ rest) ft fv hft hunk hsz hlen
+
+/-- **lp_fragment_rejected_general.** Every envelope whose headers are in increasing type-number order and
+    include a FragIndex or a FragCount header - whatever the other headers (Sequence, HopCount, PitToken, Nack,
+    …) and their values are, and whatever follows the headers (a Fragment or not) - never reaches the tables:
+    reception drops it without any effect (or fails, only if the `except` tuple of the source were insufficient,
+    which C06 excludes); it never completes a pending Interest and never invokes a handler.  Holds for both
+    front-ends (`g` arbitrary). -/
+theorem lp_fragment_rejected_general (g : Guards) (hg : g.lpType = T.tLpPacket) (int : Bytes → Except PyErr IntFacts)
+    (data : Bytes → Except PyErr DataFacts) (st : State) (hdrs rest : List (Nat × Bytes))
+    (hasc : Ascending hdrs) (hnf : ∀ h ∈ hdrs, h.1 ≠ T.tFragment)
+    (hex : ∃ h ∈ hdrs, h.1 = T.tFragIndex ∨ h.1 = T.tFragCount)
+    (hsz : ∀ e ∈ hdrs ++ rest, e.1 < 2^64 ∧ e.2.length < 2^64)
+    (hlen : (wireOf (hdrs ++ rest)).length < 2^64) :
+    ∀ res, receive g (decoders T int data) st T.tLpPacket (tlv T.tLpPacket (wireOf (hdrs ++ rest))) = .ok res →
+      res = (st, []) := by
+  obtain ⟨e, he⟩ := parseLp_fragmented_general hdrs rest hasc hnf hex hsz hlen
+  intro res h0
+  have h : receive g (decoders T int data) st g.lpType (tlv T.tLpPacket (wireOf (hdrs ++ rest))) = .ok res := by
+    rw [hg]; exact h0
+  simp only [receive, if_true, guarded, decoders, he] at h
+  split at h
+  · simp only [Except.ok.injEq] at h; exact h.symm
+  · simp at h
+
+/-- non-vacuity: Sequence, FragCount (no FragIndex), HopCount, PitToken, Nack, CongestionMark, then the Fragment -/
+example : Ascending [(81, [0, 0, 0, 0, 0, 0, 0, 1]), (83, [2]), (84, [1]), (98, [170]), (800, [253, 3, 33, 1, 50]), (832, [1])] ∧
+    parseLp T (tlv T.tLpPacket (wireOf ([(81, [0, 0, 0, 0, 0, 0, 0, 1]), (83, [2]), (84, [1]), (98, [170]),
+      (800, [253, 3, 33, 1, 50]), (832, [1])] ++ [(80, [5, 0])]))) = .error .decodeError :=
+  ⟨by unfold Ascending; decide, by rfl⟩
+
+/-! ### the PIT token of every increasing-order envelope -/
+
+private theorem sized_suffix (pre hdrs : List (Nat × Bytes)) (p : Bytes) (hs : Sized (pre ++ hdrs) p) : Sized hdrs p := by
+  refine ⟨fun h hm => hs.1 h (List.mem_append_right _ hm), hs.2.1, ?_⟩
+  have := hs.2.2
+  simp only [List.append_assoc, wireOf_length_append pre] at this
+  omega
+
+/-- headers of types the format does not have, in front of the others, are invisible to the decoder -/
+private theorem parseLp_skip_unknown (pre hdrs : List (Nat × Bytes)) (p : Bytes) (hs : Sized (pre ++ hdrs) p)
+    (hpre : ∀ h ∈ pre, Unknown h.1) : parseLp T (lpWrap (pre ++ hdrs) p) = parseLp T (lpWrap hdrs p) := by
+  have hs' := sized_suffix pre hdrs p hs
+  have hsz : ∀ (hd : List (Nat × Bytes)), Sized hd p → ∀ e ∈ hd ++ [(T.tFragment, p)], e.1 < 2^64 ∧ e.2.length < 2^64 := by
+    intro hd hsd e he
+    simp only [List.mem_append, List.mem_singleton] at he
+    rcases he with he | rfl
+    · exact hsd.1 e he
+    · exact ⟨consts_distinct.2.2.2.2.2.2.1, hsd.2.1⟩
+  unfold parseLp lpWrap
+  rw [parseAndCheckTl_tlv _ _ consts_distinct.2.2.2.2.2.1 hs.2.2,
+    parseAndCheckTl_tlv _ _ consts_distinct.2.2.2.2.2.1 hs'.2.2]
+  simp only [bind, Except.bind]
+  rw [parseValue_elems T _ (hsz _ hs), parseValue_elems T _ (hsz _ hs'), List.append_assoc,
+    collect_skip_unknown _ _ _ pre (fun h hm => ⟨hpre h hm, Or.inr rfl⟩)]
+
+/-- the envelope decoder returns the value of the PitToken header as the token whenever only headers unknown to
+    the format precede it -/
+theorem parseLp_token_general (pre rest : List (Nat × Bytes)) (tk p : Bytes)
+    (hs : Sized (pre ++ (T.tPitToken, tk) :: rest) p)
+    (hpre : ∀ h ∈ pre, Unknown h.1) (hok : ∀ h ∈ rest, HdrOk h) :
+    parseLp T (lpWrap (pre ++ (T.tPitToken, tk) :: rest) p)
+      = .ok { nack := none, pitToken := some tk, fragment := some p } := by
+  rw [parseLp_skip_unknown pre _ p hs hpre]
+  have hok' : ∀ h ∈ (T.tPitToken, tk) :: rest, HdrOk h := by
+    intro h hm
+    simp only [List.mem_cons] at hm
+    rcases hm with rfl | hm
+    · refine ⟨by dsimp only; decide, by dsimp only; decide, by dsimp only; decide, by dsimp only; decide, ?_⟩
+      intro k hk
+      have := token_kind _ hk rfl
+      simp only at this
+      subst this
+      trivial
+    · exact hok h hm
+  obtain ⟨tok, hp, _, _, h3⟩ := parseLp_wrapped _ p (sized_suffix pre _ p hs) hok'
+  rw [h3 tk rest rfl] at hp
+  exact hp
+
+/-- **token_general.** For every envelope around a network packet `p = tlv t v` in which a PitToken header is
+    preceded only by headers of types the format does not have (Sequence, HopCount, … - any number, any
+    values) and followed by any optional headers: reception is that of the bare packet with exactly that
+    header's value as the PIT token handed to the handler's reply closure. -/
+theorem token_general (g : Guards) (hg : g.lpType = T.tLpPacket)
+    (int : Bytes → Except PyErr IntFacts) (data : Bytes → Except PyErr DataFacts) (st : State)
+    (pre rest : List (Nat × Bytes)) (tk : Bytes) (t : Nat) (v : Bytes) (ht : t < 2^64)
+    (hs : Sized (pre ++ (T.tPitToken, tk) :: rest) (tlv t v))
+    (hpre : ∀ h ∈ pre, Unknown h.1) (hok : ∀ h ∈ rest, HdrOk h) :
+    receive g (decoders T int data) st T.tLpPacket (lpWrap (pre ++ (T.tPitToken, tk) :: rest) (tlv t v))
+      = receiveNet g (decoders T int data) st none (some tk) t (tlv t v) := by
+  have htl : parseTlNum (tlv t v) 0 = .ok (t, tlNumSize t) := by
+    unfold tlv; rw [List.append_assoc]; exact parse_write t _ ht
+  rw [← hg, receive_lp_ok g int data st _ _ _ t _ (parseLp_token_general pre rest tk _ hs hpre hok) rfl htl]
+  rfl
+
+/-- **token_ascending.** For every envelope of optional headers in increasing type-number order: the PIT token
+    is the value of its (first) PitToken header - in increasing order only headers unknown to the format can
+    precede it.  (Without a PitToken header there is no token: `lp_transparent`.) -/
+theorem token_ascending (g : Guards) (hg : g.lpType = T.tLpPacket)
+    (int : Bytes → Except PyErr IntFacts) (data : Bytes → Except PyErr DataFacts) (st : State)
+    (pre rest : List (Nat × Bytes)) (tk : Bytes) (t : Nat) (v : Bytes) (ht : t < 2^64)
+    (hs : Sized (pre ++ (T.tPitToken, tk) :: rest) (tlv t v))
+    (hasc : Ascending (pre ++ (T.tPitToken, tk) :: rest))
+    (hfirst : ∀ h ∈ pre, h.1 ≠ T.tPitToken)
+    (hok : ∀ h ∈ pre ++ rest, HdrOk h) :
+    receive g (decoders T int data) st T.tLpPacket (lpWrap (pre ++ (T.tPitToken, tk) :: rest) (tlv t v))
+      = receiveNet g (decoders T int data) st none (some tk) t (tlv t v) := by
+  apply token_general g hg int data st pre rest tk t v ht hs _ (fun h hm => hok h (List.mem_append_right _ hm))
+  intro h hm k hk
+  have hle : h.1 ≤ T.tPitToken := by
+    unfold Ascending at hasc
+    rw [List.map_append, List.pairwise_append] at hasc
+    exact hasc.2.2 h.1 (List.mem_map_of_mem hm) T.tPitToken (by simp)
+  have hh := hok h (List.mem_append_left _ hm)
+  rcases low_fields_token (h.1, k) hk hle with h1 | h1 | h1 | h1
+  · exact hh.1 h1
+  · exact hh.2.1 h1
+  · exact hh.2.2.1 h1
+  · exact hfirst h hm h1
+
+/-- non-vacuity: Sequence and HopCount before the token, CongestionMark, Ack, TxSequence and an unknown header
+    after it, in increasing type order -/
+example : Ascending ([(81, [0, 0, 0, 0, 0, 0, 0, 1]), (84, [2])] ++ (T.tPitToken, [1, 2, 3]) :: [(832, [1]), (836, [1]), (840, [2]), (1000, [9])]) ∧
+    (∀ h ∈ [((81 : Nat), ([0, 0, 0, 0, 0, 0, 0, 1] : Bytes)), (84, [2])], Unknown h.1) ∧
+    parseLp T (lpWrap ([(81, [0, 0, 0, 0, 0, 0, 0, 1]), (84, [2])] ++ (T.tPitToken, [1, 2, 3]) ::
+      [(832, [1]), (836, [1]), (840, [2]), (1000, [9])]) [5, 0])
+      = .ok { nack := none, pitToken := some [1, 2, 3], fragment := some [5, 0] } := by
+  refine ⟨by unfold Ascending; decide, ?_, by rfl⟩
+  intro h hm k
+  simp only [List.mem_cons, List.not_mem_nil, or_false] at hm
+  rcases hm with rfl | rfl <;> revert k <;> simp [T, Gen.C10.table]
+
 /-- The two front-ends as they are in the source today (generated): both recognise the envelope type of the
     generated format; appv2 hands the PIT token to the handler's reply closure, the legacy front-end ignores
     PIT tokens by design (so `token_roundtrip`, `reply_uses_own_token`, `no_token_bare` concern appv2 only, and
